@@ -22,7 +22,7 @@ from ..cast import cx, rules
 from ..cast.cfg import cfg_of, stmt_text
 from ..cast.loader import backend_tu
 from ..pyast.escape import Package
-from ..pyast.index import u
+from ..pyast.index import cffi_mod, u
 
 ALLOWED = {'CDefError', 'FFIError', 'NotImplementedError', 'VerificationError', 'VerificationMissing'}
 ENTRIES = ['api:FFI.cdef', 'api:FFI.typeof']
@@ -749,6 +749,38 @@ def x5(run, tu):
            'the read %s needs size >= %d but only size >= %d is established there: for a shorter token at the end of the text it reads past the terminating NUL' % worst[:3] if worst else '')
 
 
+COORD_REVIEWED = {
+    # variable whose .coord.line is read -> why the node always has coordinates
+    'exprnode': 'an expression node built by the grammar from tokens (Constant, ID, UnaryOp, BinaryOp): pycparser gives each its token position',
+    'decl': 'a Decl/Typedef node of the translation unit: built with the position of its declarator',
+}
+
+
+def x6(run):
+    """source positions are optional in pycparser's tree (the type node of an abstract parameter has coord None): `node.coord.line` on such a
+    node raises AttributeError while an error message is being formatted, and that AttributeError is what leaves cdef()/typeof()"""
+    m = cffi_mod('cparser')
+    n = 0
+    for node in ast.walk(m.tree):
+        if isinstance(node, ast.Attribute) and node.attr == 'line' and isinstance(node.value, ast.Attribute) and node.value.attr == 'coord':
+            base = u(node.value.value)
+            fn = m.enclosing_def(node)
+            # guarded forms: inside `if X.coord` / `X.coord is not None`, or a try that catches AttributeError
+            guarded = False
+            p_ = m.parents.get(node)
+            while p_ is not None and p_ is not fn:
+                if isinstance(p_, (ast.If, ast.IfExp)) and ('%s.coord' % base) in u(p_.test):
+                    guarded = True
+                if isinstance(p_, ast.Try) and any(h.type is None or 'AttributeError' in u(h.type) or u(h.type) == 'Exception' for h in p_.handlers):
+                    guarded = True
+                p_ = m.parents.get(p_)
+            n += 1
+            run.ob('X6/source-position-read-only-where-there-is-one', m.qualname_of(fn) or '?', '%s.coord.line' % base, guarded or base in COORD_REVIEWED, m.where(node),
+                   'the node %r can be one that pycparser builds without coordinates (e.g. the type of an abstract parameter): formatting the error raises AttributeError instead' % base
+                   if base not in COORD_REVIEWED else COORD_REVIEWED[base])
+    run.need(n >= 2, 'cparser: fewer .coord.line reads than confirmed by hand (%d)' % n)
+
+
 def check(run):
     run.explanation = (
         'Python: inter-procedural exception-escape analysis over the cffi package from FFI.cdef/FFI.typeof (import-aware '
@@ -771,6 +803,7 @@ def check(run):
     run.need(n2 >= 3, 'X2 matched %d stores into tok->output' % n2)
     x3_x4(run, tu)
     x5(run, tu)
+    x6(run)
     run.min_instances('E/escaping-site-has-a-verified-reason', 15)
     run.min_instances('E/site-contained-before-the-entry-point', 2)
     run.min_instances('X3', 3)
